@@ -810,3 +810,256 @@ def value_copy_rule(rule, w):
             else:
                 rule.ok(key, m.where(r, fn))
     return n
+
+
+# --------------------------------------------------------------------------------------
+# round 5, second batch (built for missed wave-5 seeds; all are silent on the repaired tree)
+# --------------------------------------------------------------------------------------
+
+def iterate_and_mutate_rule(rule, w, modules=("modeling",)):
+    """`for x in L: .. L.remove(x)` (or del / insert / append on the list being iterated) skips the
+    element after each removed one.  The iterated expression must be a fresh list (a
+    concatenation, list(..), a slice) when the body mutates it."""
+    n = 0
+    MUT = ("remove", "append", "insert", "pop", "extend", "clear", "sort", "reverse")
+    for mn in modules:
+        m = w.mods[mn]
+        for q, fn in m.funcs.items():
+            for lp in [x for x in pf._scope_nodes(fn) if isinstance(x, ast.For)]:
+                it = lp.iter
+                if not isinstance(it, (ast.Name, ast.Attribute)):
+                    continue
+                itx = pf.norm_expr(it)
+                muts = []
+                for x in ast.walk(lp):
+                    if isinstance(x, ast.Call) and isinstance(x.func, ast.Attribute) and x.func.attr in MUT and pf.norm_expr(x.func.value) == itx:
+                        muts.append(x)
+                    elif isinstance(x, ast.Delete) and any(isinstance(t_, ast.Subscript) and pf.norm_expr(t_.value) == itx for t_ in x.targets):
+                        muts.append(x)
+                if not muts and not any(isinstance(x, ast.Call) and isinstance(x.func, ast.Attribute) and x.func.attr in MUT for x in ast.walk(lp)):
+                    continue
+                n += 1
+                key = "%s.%s:loop over `%s` does not mutate it" % (mn, q, itx)
+                if muts:
+                    # a mutation immediately followed by break/return is safe
+                    safe = all(isinstance(getattr(pf.enclosing_stmt(x), "_parent", None), (ast.If, ast.For)) and
+                               _followed_by_exit(pf.enclosing_stmt(x)) for x in muts)
+                    if safe:
+                        rule.ok(key, m.where(lp, fn), "mutation is followed by break/return")
+                    else:
+                        rule.violation(key, m.where(muts[0], fn),
+                                       "`%s` is modified (%s) inside the loop that iterates over it: the iterator skips the element that follows each "
+                                       "removed one" % (itx, pf.norm_expr(muts[0])[:50]), "iterate over a copy (list(%s) / a concatenation)" % itx,
+                                       pf.norm_expr(muts[0])[:60])
+                else:
+                    rule.ok(key, m.where(lp, fn))
+    return n
+
+
+def _followed_by_exit(st):
+    p = getattr(st, "_parent", None)
+    for f in ("body", "orelse"):
+        blk = getattr(p, f, None)
+        if isinstance(blk, list) and any(x is st for x in blk):
+            i = [k for k, x in enumerate(blk) if x is st][0]
+            return any(isinstance(x, (ast.Break, ast.Return)) for x in blk[i + 1:i + 2])
+    return False
+
+
+def accumulator_filter_rule(rule, w):
+    """`L += [v for v in S if v not in T]` builds a duplicate-free list only if T is L itself."""
+    m = w.mods["modeling"]
+    n = 0
+    for q, fn in m.funcs.items():
+        for st in pf.stmts_of(fn):
+            if not (isinstance(st, ast.AugAssign) and isinstance(st.op, ast.Add) and isinstance(st.value, ast.ListComp)):
+                continue
+            comp = st.value
+            if len(comp.generators) != 1 or not isinstance(comp.elt, ast.Name):
+                continue
+            g = comp.generators[0]
+            for cond in g.ifs:
+                if isinstance(cond, ast.Compare) and len(cond.ops) == 1 and isinstance(cond.ops[0], ast.NotIn) and isinstance(cond.left, ast.Name) \
+                        and cond.left.id == comp.elt.id:
+                    n += 1
+                    L, T = pf.norm_expr(st.target), pf.norm_expr(cond.comparators[0])
+                    key = "modeling.%s:%s += [.. if %s not in %s]" % (q, L, comp.elt.id, T)
+                    if L == T:
+                        rule.ok(key, m.where(st, fn))
+                    else:
+                        rule.violation(key, m.where(st, fn),
+                                       "elements are added to `%s` unless they are in `%s`: an element already in `%s` (from an earlier term) but not in "
+                                       "`%s` is listed twice" % (L, T, L, T), "if %s not in %s" % (comp.elt.id, L), T)
+    return n
+
+
+def validate_then_mutate_rule(rule, w):
+    """An edit operation of `op` that refuses its argument must do so before it changes the
+    bookkeeping: no `raise` may be reachable after a write to self._variables /
+    self._inequalities / self._equalities on the same path (a refused edit leaves the op as it was)."""
+    m = w.mods["modeling"]
+    n = 0
+    STATE = ("_variables", "_inequalities", "_equalities")
+    for q in ("op.__setattr__", "op.addconstraint", "op.delconstraint"):
+        fn = m.funcs.get(q)
+        if fn is None:
+            continue
+        cfg = pf.CFG(fn)
+        writes = []
+        for st in pf.stmts_of(fn):
+            hit = False
+            for x in ast.walk(st) if not isinstance(st, (ast.If, ast.For, ast.While, ast.Try)) else []:
+                if isinstance(x, (ast.Subscript, ast.Attribute)) and isinstance(getattr(x, "ctx", None), (ast.Store, ast.Del)) and \
+                        any(("self.%s" % s_) in pf.norm_expr(x) for s_ in STATE):
+                    hit = True
+                if isinstance(x, ast.Call) and isinstance(x.func, ast.Attribute) and x.func.attr in ("remove", "append") and \
+                        any(("self.%s" % s_) in pf.norm_expr(x.func.value) for s_ in STATE):
+                    hit = True
+                if isinstance(x, ast.AugAssign) and any(("self.%s" % s_) in pf.norm_expr(x.target) for s_ in STATE):
+                    hit = True
+            if hit:
+                writes.append(st)
+        raises = [x for x in pf._scope_nodes(fn) if isinstance(x, ast.Raise)]
+        for r in raises:
+            n += 1
+            key = "modeling.%s:refusal `%s` precedes every bookkeeping write" % (q, pf.norm_expr(r)[:40])
+            rn = cfg.node_of(pf.enclosing_stmt(r))
+            bad = None
+            for wst in writes:
+                wn = cfg.node_of(wst)
+                if wn is None or rn is None:
+                    continue
+                if rn in cfg.reachable(start=wn) and wn != rn:
+                    bad = wst
+                    break
+            if bad is not None:
+                rule.violation(key, m.where(r, fn),
+                               "this refusal can be reached after `%s` has already changed the bookkeeping: a refused edit leaves the op half updated"
+                               % pf.norm_expr(bad)[:60], "validate before the first write", pf.norm_expr(bad)[:70])
+            else:
+                rule.ok(key, m.where(r, fn))
+    return n
+
+
+def minmax_pairing_rule(rule, w):
+    """In the max/min classes `_vecmax` belongs to the `_ismax` side and `_vecmin` to the other:
+    every call of one of them has a path condition that implies the matching polarity of
+    `self._ismax`, and the two reducers `_vecmax` / `_vecmin` are mirror images of each other
+    (statement by statement under max<->min, <-> comparison flipped by the swap of the builtin)."""
+    m = w.mods["modeling"]
+    n = 0
+    for q, fn in m.funcs.items():
+        if "minmax" not in q:
+            continue
+        for x in pf._scope_nodes(fn):
+            if isinstance(x, ast.Call) and isinstance(x.func, ast.Name) and x.func.id in ("_vecmax", "_vecmin"):
+                conds = pf.path_condition(x, cross_loops=True)
+                prem = pf.P_and(*conds) if conds else pf.P_TRUE
+                want = pf.P_atom("self._ismax") if x.func.id == "_vecmax" else pf.P_not(pf.P_atom("self._ismax"))
+                n += 1
+                key = "modeling.%s:%s only on the %s side" % (q, x.func.id, "max" if x.func.id == "_vecmax" else "min")
+                if pf.implies(prem, want):
+                    rule.ok(key, m.where(x, fn))
+                else:
+                    rule.violation(key, m.where(x, fn),
+                                   "%s is applied on a path that does not imply `%sself._ismax`: the constants of a %s are folded with the wrong reducer"
+                                   % (x.func.id, "" if x.func.id == "_vecmax" else "not ", "min" if x.func.id == "_vecmax" else "max"),
+                                   repr(want), repr(prem)[:100])
+    a, b = m.funcs.get("_vecmax"), m.funcs.get("_vecmin")
+    if a is not None and b is not None:
+        n += 1
+        ta = [" ".join(ast.unparse(s).split()) for s in pf.stmts_of(a) if not isinstance(s, (ast.If, ast.For, ast.While, ast.Expr))]
+        tb = [swap_dual(" ".join(ast.unparse(s).split())) for s in pf.stmts_of(b) if not isinstance(s, (ast.If, ast.For, ast.While, ast.Expr))]
+        key = "modeling._vecmax ~ _vecmin:mirror images"
+        if ta == tb:
+            rule.ok(key, m.where(a, a), "%d statements" % len(ta))
+        else:
+            d = [(x_, y_) for x_, y_ in zip(ta, tb) if x_ != y_][:1] or [("length", "%d vs %d" % (len(ta), len(tb)))]
+            rule.violation(key, m.where(a, a), "_vecmax and _vecmin are not mirror images of each other: `%s` vs `%s`" % d[0], d[0][1][:100], d[0][0][:100])
+    return n
+
+
+def _retag(p, ver):
+    """copy of Prop p with every atom tagged by the versions of the names it mentions"""
+    if p.kind == "atom":
+        names = sorted(x for x in pf._prop_names(p) if x in ver)
+        return pf.P_atom(p.args + "".join("#%s%d" % (x, ver[x]) for x in names))
+    if p.kind in ("and", "or", "not"):
+        return pf.Prop(p.kind, [_retag(a, ver) for a in p.args])
+    return p
+
+
+def fresh_result_rule(rule, w):
+    """An operator that returns a fresh `f = _function()` must give it a term on every path:
+    the default function is the zero function of length 1, whatever len(self) is.  Every
+    control-flow path from the creation of f to a `return f` that assigns none of
+    f._constant / f._linear / f._cvxterms / f._ccvterms must be infeasible (the conjunction of
+    its branch conditions - names versioned at every re-binding - is unsatisfiable)."""
+    import itertools
+    m = w.mods["modeling"]
+    n = 0
+    for q, fn in m.funcs.items():
+        if q.count(".") != 1 or q.split(".")[0] != "_function" or q.split(".")[1] not in BINARY:
+            continue
+        creates = [a for a in pf.stmts_of(fn) if isinstance(a, ast.Assign) and len(a.targets) == 1 and isinstance(a.targets[0], ast.Name)
+                   and isinstance(a.value, ast.Call) and pf.norm_expr(a.value.func) == "_function" and not a.value.args]
+        if len(creates) != 1:
+            continue
+        v = creates[0].targets[0].id
+        cfg = pf.CFG(fn)
+        start = cfg.node_of(creates[0])
+        if start is None:
+            continue
+
+        def sets_term(st):
+            return isinstance(st, (ast.Assign, ast.AugAssign)) and any(
+                isinstance(t_, ast.Attribute) and isinstance(t_.value, ast.Name) and t_.value.id == v
+                for t_ in (st.targets if isinstance(st, ast.Assign) else [st.target]))
+        bad, npaths, too_many = None, 0, False
+        stack = [(start, [], {}, frozenset([start]))]
+        while stack and bad is None:
+            u, conds, ver, seen = stack.pop()
+            st = cfg.node_stmt.get(u)
+            if cfg.kind.get(u) == "stmt" and sets_term(st):
+                continue                              # this path gives f a term
+            if cfg.kind.get(u) == "stmt" and isinstance(st, ast.Return):
+                if isinstance(st.value, ast.Name) and st.value.id == v:
+                    npaths += 1
+                    p = pf.P_and(*conds) if conds else pf.P_TRUE
+                    atoms = sorted(p.atoms())
+                    if len(atoms) > 18:
+                        too_many = True
+                        continue
+                    if any(p.ev(dict(zip(atoms, vals))) for vals in itertools.product((False, True), repeat=len(atoms))):
+                        bad = (st, p)
+                continue
+            if cfg.kind.get(u) == "stmt" and isinstance(st, ast.Assign):
+                ver = dict(ver)
+                for x in pf.stores_in([st]):
+                    ver[x] = ver.get(x, 0) + 1
+            for s_ in cfg.succ[u]:
+                if s_ in seen or s_ in (1, 2):
+                    continue
+                lab = cfg.edge_label.get((u, s_))
+                c2 = conds
+                if cfg.kind.get(u) == "test" and isinstance(st, ast.If) and lab in ("true", "false"):
+                    pr = _retag(pf.prop_of(st.test), ver)
+                    c2 = conds + [pr if lab == "true" else pf.P_not(pr)]
+                if lab == "exc":
+                    continue
+                if len(stack) > 20000:
+                    too_many = True
+                    break
+                stack.append((s_, c2, ver, seen | {s_}))
+        n += 1
+        key = "modeling.%s:every path that returns the fresh `%s` gives it a term" % (q, v)
+        if bad is not None:
+            rule.violation(key, m.where(bad[0], fn),
+                           "`%s` can be returned as it was created - the zero function of length 1 - under %s: for a vector operand the result has "
+                           "the wrong length (mismatched lengths are then accepted elsewhere)" % (v, repr(bad[1])[:140]),
+                           "an assignment to %s._constant (e.g. matrix(0.0, (len(self),1))) on that path" % v, repr(bad[1])[:140])
+        elif too_many:
+            rule.undecided(key, m.where(fn, fn), "too many paths / atoms")
+        else:
+            rule.ok(key, m.where(fn, fn), "%d returning paths without a term, all infeasible" % npaths)
+    return n
